@@ -7,6 +7,7 @@ import (
 	"os"
 	"path/filepath"
 	"reflect"
+	"sync/atomic"
 
 	oci "github.com/opencontainers/runtime-spec/specs-go"
 	"tags.cncf.io/container-device-interface/pkg/cdi"
@@ -72,14 +73,30 @@ type Case struct {
 	OCI     string   `json:"initial_oci"` // shape name or "nil"
 	Tokens  []string `json:"request_kinds"`
 	Request []string `json:"request"`
-	idx     []int
+	// Late: the request goes to a cache in automatic-refresh mode as its first call after a
+	// configured directory, missing when the cache was created, appeared holding an invalid Spec
+	// file: the rescan the call itself triggers reports an error
+	Late bool `json:"first_call_after_a_directory_with_a_bad_file_appeared,omitempty"`
+	idx  []int
 }
+
+var lateRoot, specRoot string
+var lateSeq atomic.Int64
 
 var shapes = map[string]func() *oci.Spec{}
 var cache *cdi.Cache
 
 func eval(c Case) hx.Result {
 	return hx.Guard("", c, func() hx.Result {
+		cache := cache
+		if c.Late {
+			late := filepath.Join(lateRoot, fmt.Sprint("late", lateSeq.Add(1)))
+			ac, _ := cdi.NewCache(cdi.WithSpecDirs(late, filepath.Join(specRoot, "d0"), filepath.Join(specRoot, "d1")), cdi.WithAutoRefresh(true))
+			defer func() { _ = ac.Configure(cdi.WithAutoRefresh(false)); _ = os.RemoveAll(late) }()
+			_ = os.MkdirAll(late, 0o755)
+			_ = os.WriteFile(filepath.Join(late, "bad.json"), []byte(`{"cdiVersion": "0.5.0", "kind": [`), 0o644)
+			cache = ac
+		}
 		var wantMiss []string
 		for _, i := range c.idx {
 			if !tokens[i].resolve {
@@ -159,6 +176,8 @@ func main() {
 		}
 	}
 	cache, _ = cdi.NewCache(cdi.WithSpecDirs(filepath.Join(root, "d0"), filepath.Join(root, "d1")), cdi.WithAutoRefresh(false))
+	lateRoot, specRoot = filepath.Join(root, "late"), root
+	_ = os.MkdirAll(lateRoot, 0o755)
 	// sanity of the harness' resolution model against the cache (C01 owns the general rule)
 	for _, t := range tokens {
 		if (cache.GetDevice(t.device) != nil) != t.resolve {
@@ -235,6 +254,17 @@ func main() {
 		"Oracle: error; returned list == request filtered to unresolvable names (order, multiplicity); OCI spec deep-equal and JSON-identical to its pre-call copy. Distinct by construction; non-trivial = at least one miss or nil spec",
 		maxLen, len(tokens), len(ociNames))
 	r.Assumptions = []string{"every resolvable device's edits could be applied (type and major specified), so a modification would be visible", "which names resolve in this population is cross-checked against the cache at start (exit 2 on disagreement; that rule is C01's subject)"}
+	// the automatic-refresh flavour: every request of up to two names
+	nLate := 0
+	for _, c := range cases {
+		if len(c.idx) <= 2 && (c.OCI == "empty" || c.OCI == "colliding-with-edits" || c.OCI == "nil") {
+			lc := c
+			lc.Late = true
+			cases = append(cases, lc)
+			nLate++
+		}
+	}
+	r.Extra["requests_sent_as_first_call_after_a_directory_appeared"] = nLate
 	r.ParallelL(int64(len(cases)), func(i int64, l *hx.Local) {
 		res := eval(cases[i])
 		l.Record(res, func() any { return map[string]any{"case": cases[i], "outcome": res.Outcome} })
